@@ -58,7 +58,37 @@ def _files_only(fs):
     return {k: v for k, v in fs.items() if v != "dir"}
 
 
-def compare(last, scratch):
+def adopted_paths(descs):
+    """Paths that the plans of some build of the history declared static (directly, through a
+    tree or a pattern): from then on they are the user's files, also after the declaration is
+    dropped again, and a from-scratch build 'of the final sources' has them as sources."""
+    from .c06 import declared_static, under_declared_static
+
+    decls = [declared_static(d) for d in descs]
+
+    def test(path):
+        return any(under_declared_static(path, d) for d in decls)
+
+    return test
+
+
+def root_cause(fam, kind, small, detail):
+    """Known root causes that show under many histories get one key per difference kind."""
+    import json
+
+    if fam == "f_subplan" and any(d.get("knobs", {}).get("inputs") == "tree" for d in small):
+        if kind == "files":
+            about = list(detail)
+        elif kind == "graph":
+            about = [d.get("node", "") for d in detail]
+        else:
+            about = [json.dumps(detail, default=str)]
+        if all("sub/out" in x or "tr S " in x for x in about):
+            return f"C01|f_subplan|static-tree-adopts-output|{kind}"
+    return None
+
+
+def compare(last, scratch, adopted=None):
     """Return a list of (kind, detail) differences between incremental and scratch results."""
     out = []
     if last.fault or last.error:
@@ -75,6 +105,9 @@ def compare(last, scratch):
         declared = {p for outs in last.db_outputs.values() for p in outs}
         for k in [k for k in a if k not in b and k in used and k not in declared]:
             del a[k]
+        if adopted is not None:
+            for k in [k for k in a if k not in b and adopted(k)]:
+                del a[k]
         if a != b:
             out.append(("files", {k: (a.get(k), b.get(k)) for k in sorted(set(a) | set(b))
                                   if a.get(k) != b.get(k)}))
@@ -110,17 +143,18 @@ def run_job(spec):
             return
         scratch = hist.scratch_build(descs[-1], CFG)
         acc.evaluations += 1
-        for kind, detail in compare(last, scratch):
+        for kind, detail in compare(last, scratch, adopted_paths(descs)):
             def violates(cand, kind=kind):
                 w, ol = hist.run_history(cand, CFG)
                 w.destroy()
                 if len(ol) < len(cand):
                     return False
-                return any(k == kind for k, _ in compare(ol[-1], hist.scratch_build(cand[-1], CFG)))
+                return any(k == kind for k, _ in compare(ol[-1], hist.scratch_build(cand[-1], CFG),
+                                                         adopted_paths(cand)))
 
             small = hist.shrink(descs, violates)
             acc.violation(
-                f"C01|{fam}|{kind}|{hist.history_label(small)}",
+                root_cause(fam, kind, small, detail) or f"C01|{fam}|{kind}|{hist.history_label(small)}",
                 {"family": fam, "start": descs[0].get("knobs"), "edits": labels, "difference": kind,
                  "minimal_history": hist.history_label(small),
                  "detail": detail, "last_build": describe(last, 50)},
